@@ -42,8 +42,8 @@ impl Cz {
         Cz { seed: id.wrapping_mul(7).wrapping_add(seed.wrapping_mul(13)), pos: 0 }
     }
     /// representative of a class: consecutive positions of one scenario get different representatives
-    pub fn pick(&mut self, class: &str) -> Result<char, String> {
-        let r = reps(class);
+    pub fn pick(&mut self, class: &str) -> Result<char, String> { self.pick_in(class, reps(class)) }
+    pub fn pick_in(&mut self, class: &str, r: &[char]) -> Result<char, String> {
         if r.is_empty() { return Err(format!("unknown class token {class:?}")) }
         let c = r[((self.seed + self.pos) % r.len() as u64) as usize];
         self.pos += 1;
@@ -88,7 +88,7 @@ fn f32_sym(s: &str) -> Result<f32, String> {
 fn pf32(x: f32) -> String { x.to_string() }
 fn pf64(x: f64) -> String { x.to_string() }
 /// literal text of a "kind:sym" symbol used inside wire texts
-fn literal(sym: &str) -> Result<String, String> {
+pub fn literal(sym: &str) -> Result<String, String> {
     let (k, s) = sym.split_once(':').ok_or_else(|| format!("bad symbol {sym:?}"))?;
     Ok(match k {
         "name" | "lit" | "enum" | "bool" => s.to_string(),
